@@ -322,6 +322,13 @@ func builtinStringSplit(call FunctionCall) Value {
 	if separatorValue.isRegExp() {
 		targetLength := len(target)
 		search := separatorValue.object().regExpValue().regularExpression
+		if targetLength == 0 {
+			// 15.5.4.14 step 10: nothing is left when the separator matches the empty string.
+			if search.MatchString(target) {
+				return objectValue(call.runtime.newArray(0))
+			}
+			return objectValue(call.runtime.newArrayOf([]Value{stringValue(target)}))
+		}
 		valueArray := []Value{}
 		result := search.FindAllStringSubmatchIndex(target, -1)
 		lastIndex := 0
